@@ -146,6 +146,26 @@ def gen_args(rng, vg, kind, m, fd, start_val):
     return None
 
 
+def cur_names(fields):
+    return {n for n, _ in fields}
+
+
+def hookable(fd):
+    """field kinds whose stored values compare with == the way the model's pyEq does"""
+    return fd["k"] in ("integer", "number", "float", "string", "boolean", "enumLit", "enumCls", "seqAny", "seqOf", "seqPos",
+                       "mapAny", "mapOf", "tupleOf", "tuplePos") and "struct" not in json.dumps(fd)
+
+
+def install_hook(cls, hooks, ctx):
+    loaded = [(f, dump.load_value(v, ctx)) for f, v in hooks]
+
+    def __validate__(self):
+        for f, v in loaded:
+            if f in self.__dict__ and self.__dict__[f] == v:
+                raise ValueError(f"{f}: rejected by __validate__")
+    cls.__validate__ = __validate__
+
+
 def gen_cases(rng, tier, n_classes, immutable=None):
     tbl = table()
     max_len = 6 if tier == "quick" else 20
@@ -230,6 +250,21 @@ def gen_cases(rng, tier, n_classes, immutable=None):
                 else:
                     ops.append({"op": "delitem", "f": nm if rng.random() < 0.85 else "nofield"})
             case = {"suite": "mutate", "cls": cls, "kw": kw, "ops": ops}
+            # a class-level __validate__ hook that raises when field f == v, for values the history
+            # actually tries to establish (and that the start state does not hold)
+            if not imm_cls and rng.random() < 0.35:
+                hooks = []
+                for op in ops:
+                    if op["op"] == "setattr" and op["f"] in cur_names(fields) and op["v"] is not None and rng.random() < 0.5 \
+                            and hookable(dict(fields)[op["f"]]) and not any(gen.wire_eq(op["v"], kv[1]) for kv in kw if kv[0] == op["f"]):
+                        hooks.append([op["f"], op["v"]])
+                for nm, fd in fields:
+                    if hookable(fd) and rng.random() < 0.3:
+                        v = vg.valid(fd)
+                        if v is not gen.NOVALUE and v is not None and not any(gen.wire_eq(v, kv[1]) for kv in kw if kv[0] == nm):
+                            hooks.append([nm, v])
+                if hooks:
+                    case["hook"] = hooks[:4]
             case["re"] = gen.re_table(cls, kw, ops)
             cases.append(case)
     return cases
@@ -269,6 +304,8 @@ def run_impl(case):
     if back != want:
         return {"abstraction_mismatch": {"dumped": back, "declared": want}}
     cls_actual = C.fix_accepts(dump.dump_class(cls, ctx))
+    if case.get("hook"):
+        install_hook(cls, case["hook"], ctx)
     try:
         kw = {k: dump.load_value(v, ctx) for k, v in case["kw"]}
         x = cls(**kw)
@@ -305,7 +342,7 @@ def run_impl(case):
 
 def line(case, impl):
     l = {"suite": "mutate", "cls": impl.get("cls_actual", case["cls"]), "kw": impl.get("kw_actual", case["kw"]),
-         "ops": case["ops"], "re": case.get("re", [])}
+         "ops": case["ops"], "re": case.get("re", []), "hook": case.get("hook", [])}
     if "steps" in impl:
         # ops whose arguments could not even be built are dropped on both sides
         keep = [i for i, s in enumerate(impl["steps"]) if s["out"] != "unbuildable-arg"]
